@@ -862,6 +862,66 @@ var c36Dirty = []string{"echo   hi\n", "if true;then\n echo x\nfi\n", "foo(){ ba
 var c36DirtyBash = []string{"[[ \"$x\" == y ]]\n", "[[ -n  $x ]]\n", "arr=( 1 2 )\n", "(( x ++ ))\n", "function f { y; }\n", "echo $[1+2]\n"}
 var c36Broken = []string{"if true; then\n", "echo 'unclosed\n", "echo $(\n", ")\n", "foo( {\n", "echo \"abc\n", "case x in\n", "a &&\n"}
 
+// Layout-canonical but simplifiable: `shfmt` leaves these alone, `shfmt -s` rewrites them (checked by
+// hand on the binary).  Only simplification makes their formatted output differ.
+var c36Simplifiable = []string{"echo $(($x + 1))\n", "echo $( (cmd) )\n", "echo \"\\$foo\"\n", "echo $((${x} + 1))\n"}
+var c36SimplifiableBash = []string{"(($bar))\n", "[[ \"$a\" == b ]]\n", "[[ -n \"$a\" ]]\n"}
+
+// The same idea for minified layout (what Minify prints when Simplify has not run).
+var c36SimplifiableMin = []string{"echo $(($x+1))\n", "echo \"\\$foo\"\n"}
+var c36SimplifiableMinBash = []string{"(($bar))\n", "[[ \"$a\" == b ]]\n"}
+var c36OneLiners = []string{"echo hi\n", "x=1\n", "a | b\n", "foo bar\n"}
+
+// c36GenSimplifiable: a file in canonical layout (default or minified) with a construct Simplify rewrites.
+func c36GenSimplifiable(r *Rand, bashOK, minified bool) string {
+	var sb strings.Builder
+	plain, bash := c36Simplifiable, c36SimplifiableBash
+	if minified {
+		plain, bash = c36SimplifiableMin, c36SimplifiableMinBash
+	} else if r.Chance(30) {
+		sb.WriteString(r.Pick([]string{"#!/bin/sh\n", "#!/bin/bash\n", "#!/usr/bin/env bash\n"}))
+	}
+	n := 1 + r.Intn(3)
+	k := r.Intn(n)
+	for i := 0; i < n; i++ {
+		switch {
+		case i != k && r.Chance(60):
+			sb.WriteString(r.Pick(c36OneLiners))
+		case bashOK && !strings.HasPrefix(sb.String(), "#!/bin/sh") && r.Chance(50):
+			sb.WriteString(r.Pick(bash))
+		default:
+			sb.WriteString(r.Pick(plain))
+		}
+	}
+	return sb.String()
+}
+
+// option classes: every consistency leg runs under each of them in every quick run
+const (
+	c36ClsRandom = iota
+	c36ClsFlagS
+	c36ClsFlagMn
+	c36ClsECSimplify
+	c36ClsECMinify
+)
+
+func c36ClsSimplifies(cls int) bool { return cls != c36ClsRandom }
+func c36ClsMinifies(cls int) bool   { return cls == c36ClsFlagMn || cls == c36ClsECMinify }
+
+// c36GenSourceCls biases towards simplifiable files when the option class simplifies.
+func c36GenSourceCls(r *Rand, bashOK bool, cls int) (string, string) {
+	if c36ClsSimplifies(cls) && r.Chance(50) {
+		if c36ClsMinifies(cls) && r.Chance(50) {
+			return c36GenSimplifiable(r, bashOK, true), "src:simplifiable-minified"
+		}
+		return c36GenSimplifiable(r, bashOK, false), "src:simplifiable"
+	}
+	if r.Chance(6) {
+		return c36GenSimplifiable(r, bashOK, false), "src:simplifiable"
+	}
+	return c36GenSource(r, bashOK)
+}
+
 func c36GenSource(r *Rand, bashOK bool) (src string, tag string) {
 	var sb strings.Builder
 	if r.Chance(45) {
@@ -990,11 +1050,28 @@ func c36GenFmtFlags(r *Rand, f *c36Flags) {
 	}
 }
 
-func c36GenCase(r *Rand) (cs c36Case, tags []string) {
+func c36GenCase(r *Rand, cls int) (cs c36Case, tags []string) {
 	cs.flags = c36NoFlags()
 	ecMode := r.Chance(45)
+	switch cls {
+	case c36ClsFlagS, c36ClsFlagMn:
+		ecMode = false
+	case c36ClsECSimplify, c36ClsECMinify:
+		ecMode = true
+	}
 	if !ecMode {
 		c36GenFmtFlags(r, &cs.flags)
+		switch cls {
+		case c36ClsFlagS:
+			cs.flags.s, cs.flags.mn = "1", "-"
+			tags = append(tags, "cls:-s")
+		case c36ClsFlagMn:
+			cs.flags.mn = "1"
+			tags = append(tags, "cls:-mn")
+		}
+		if cs.flags.p == "1" && cls != c36ClsRandom {
+			cs.flags.p = "-" // keep these cases away from the -p/-ln start-up error
+		}
 	}
 	if cs.flags.useEC() {
 		tags = append(tags, "opts:editorconfig")
@@ -1027,7 +1104,7 @@ func c36GenCase(r *Rand) (cs c36Case, tags []string) {
 			continue
 		}
 		used[rel] = true
-		src, tag := c36GenSource(r, !strings.HasSuffix(name, ".mksh") && !strings.HasSuffix(name, ".posix"))
+		src, tag := c36GenSourceCls(r, !strings.HasSuffix(name, ".mksh") && !strings.HasSuffix(name, ".posix") && !strings.HasSuffix(name, ".dash"), cls)
 		tags = append(tags, tag)
 		mode := os.FileMode(0o644)
 		if r.Chance(25) {
@@ -1060,8 +1137,17 @@ func c36GenCase(r *Rand) (cs c36Case, tags []string) {
 		used["dirlink"] = true
 	}
 	// EditorConfig files: always a root one at the top (keeps the lookup inside the tree)
-	if r.Chance(70) {
-		cs.files = append(cs.files, c36File{rel: ".editorconfig", kind: "reg", mode: 0o644, content: c36GenEditorConfig(r, true)})
+	if cls == c36ClsECSimplify || cls == c36ClsECMinify || r.Chance(70) {
+		ec := c36GenEditorConfig(r, true)
+		switch cls { // the last matching section wins
+		case c36ClsECSimplify:
+			ec += "[*]\nsimplify = true\n"
+			tags = append(tags, "cls:ec-simplify")
+		case c36ClsECMinify:
+			ec += "[*]\nminify = true\n"
+			tags = append(tags, "cls:ec-minify")
+		}
+		cs.files = append(cs.files, c36File{rel: ".editorconfig", kind: "reg", mode: 0o644, content: ec})
 		tags = append(tags, "tree:editorconfig")
 		if len(dirs) > 1 && r.Chance(40) {
 			cs.files = append(cs.files, c36File{rel: filepath.Join(dirs[1], ".editorconfig"), kind: "reg", mode: 0o644, content: c36GenEditorConfig(r, r.Chance(20))})
@@ -1476,6 +1562,12 @@ func c36RunCase(c *Ctx, cs c36Case, r *Rand, replay bool) (res c36Result) {
 			if ra.stdout != o.out || ra.status != 0 {
 				fail("S4", fmt.Sprintf("shfmt --filename %s < %s gives %q (status %d); shfmt %s gives %q", p, p, ra.stdout, ra.status, p, o.out))
 			}
+			// list-only through stdin: lists the name exactly when the formatted bytes differ
+			rl := c36Run(c, root, &in, append(fl("-l"), "--filename", p)...)
+			res.runs++
+			if listed, differs := strings.TrimSuffix(rl.stdout, "\n") == p, o.out != o.content; listed != differs || (rl.status != 0) != differs {
+				fail("S4", fmt.Sprintf("shfmt -l --filename %s < %s prints %q (status %d); formatted output differs: %v", p, p, rl.stdout, rl.status, differs))
+			}
 		} else {
 			res.tags = append(res.tags, "stdin-language-differs")
 		}
@@ -1588,7 +1680,11 @@ func c36EquivCase(c *Ctx, r *Rand) (res c36Result) {
 	names := []string{"a.sh", "b.bash", "sub/c.sh", "noext", "e.zsh", "d.mksh"}
 	for _, n := range names {
 		if r.Chance(60) {
-			src, _ := c36GenSource(r, true)
+			cls := c36ClsRandom
+			if f.s == "1" || f.mn == "1" {
+				cls = c36ClsFlagS
+			}
+			src, _ := c36GenSourceCls(r, true, cls)
 			files = append(files, c36File{rel: n, kind: "reg", mode: 0o644, content: src})
 		}
 	}
@@ -1626,12 +1722,23 @@ func c36EquivCase(c *Ctx, r *Rand) (res c36Result) {
 }
 
 // stdin tie case: one `stdin` line.
-func c36StdinCase(c *Ctx, r *Rand) (res c36Result) {
+func c36StdinCase(c *Ctx, r *Rand, cls int) (res c36Result) {
 	f := c36NoFlags()
-	if r.Chance(55) {
+	if (cls == c36ClsRandom && r.Chance(55)) || cls == c36ClsFlagS || cls == c36ClsFlagMn {
 		c36GenFmtFlags(r, &f)
+		f.p = "-"
+		switch cls {
+		case c36ClsFlagS:
+			f.s, f.mn = "1", "-"
+		case c36ClsFlagMn:
+			f.mn = "1"
+		}
 	}
-	switch r.Intn(6) {
+	mode := r.Intn(6)
+	if cls != c36ClsRandom && r.Chance(60) {
+		mode = 0 // list-only × simplification
+	}
+	switch mode {
 	case 0:
 		f.list = "t"
 	case 1:
@@ -1647,9 +1754,16 @@ func c36StdinCase(c *Ctx, r *Rand) (res c36Result) {
 	if r.Chance(15) {
 		f.ai = true
 	}
-	src, tag := c36GenSource(r, true)
+	src, tag := c36GenSourceCls(r, true, cls)
 	dir := c36Scratch(c)
-	files := []c36File{{rel: ".editorconfig", kind: "reg", mode: 0o644, content: c36GenEditorConfig(r, true)}, {rel: "sub", kind: "dir"}}
+	ec := c36GenEditorConfig(r, true)
+	switch cls {
+	case c36ClsECSimplify:
+		ec += "[*]\nsimplify = true\n"
+	case c36ClsECMinify:
+		ec += "[*]\nminify = true\n"
+	}
+	files := []c36File{{rel: ".editorconfig", kind: "reg", mode: 0o644, content: ec}, {rel: "sub", kind: "dir"}}
 	c36Materialise(dir, files)
 	defer os.RemoveAll(dir)
 	name := "<standard input>"
@@ -1674,7 +1788,10 @@ func c36StdinCase(c *Ctx, r *Rand) (res c36Result) {
 	snap := map[string]string{}
 	res.ops = append(res.ops, c36OpLine{"stdin " + f.token() + " " + e.token(), c36Observe(rr, snap, snap, nil)})
 	res.key = "stdin " + f.token() + " " + hx(src)
-	res.tags = []string{"stdin", tag}
+	res.tags = []string{"stdin", tag, fmt.Sprintf("stdin-cls:%d", cls)}
+	if f.list != "f" && !f.write && !f.diff {
+		res.tags = append(res.tags, "stdin:list-only")
+	}
 	res.nontriv = e.resKind == "ok" && e.resTx != src
 	return
 }
@@ -1697,6 +1814,7 @@ func c36(c *Ctx) {
 		r    *Rand
 		rep  bool
 		tags []string
+		cls  int
 	}
 	var jobs []job
 	if c.Shard == 0 {
@@ -1706,7 +1824,7 @@ func c36(c *Ctx) {
 				line = toks[1]
 			}
 			if cs, ok := c36ParseCase(line); ok {
-				jobs = append(jobs, job{"case", cs, c.R.Fork(fmt.Sprintf("corpus%d", i)), true, []string{"corpus"}})
+				jobs = append(jobs, job{kind: "case", cs: cs, r: c.R.Fork(fmt.Sprintf("corpus%d", i)), rep: true, tags: []string{"corpus"}})
 			}
 		}
 	}
@@ -1715,11 +1833,15 @@ func c36(c *Ctx) {
 		switch k := i % 10; {
 		case k == 7:
 			jobs = append(jobs, job{kind: "equiv", r: r})
-		case k == 8 || k == 9:
+		case k == 8:
 			jobs = append(jobs, job{kind: "stdin", r: r})
+		case k == 9:
+			jobs = append(jobs, job{kind: "stdin", r: r, cls: 1 + (i/10)%4})
 		default:
-			cs, tags := c36GenCase(r)
-			jobs = append(jobs, job{"case", cs, r, false, tags})
+			// classes per block of ten: random, -s, random, EditorConfig simplify, -mn, random, EditorConfig minify
+			cls := []int{c36ClsRandom, c36ClsFlagS, c36ClsRandom, c36ClsECSimplify, c36ClsFlagMn, c36ClsRandom, c36ClsECMinify}[k]
+			cs, tags := c36GenCase(r, cls)
+			jobs = append(jobs, job{kind: "case", cs: cs, r: r, tags: tags})
 		}
 	}
 	results := parallelMap(len(jobs), 4, func(i int) c36Result {
@@ -1730,7 +1852,7 @@ func c36(c *Ctx) {
 			case "equiv":
 				res = c36EquivCase(c, j.r)
 			case "stdin":
-				res = c36StdinCase(c, j.r)
+				res = c36StdinCase(c, j.r, j.cls)
 			default:
 				res = c36RunCase(c, j.cs, j.r, j.rep)
 				res.tags = append(res.tags, j.tags...)
